@@ -27,7 +27,7 @@ def run(ctx):
     thorough = ctx.tier == "thorough"
     ctx.build()
     models = [("C01Model.tla", "C01_thorough.cfg" if thorough else "C01_quick.cfg"),
-              ("C03Model.tla", "C03_thorough.cfg" if thorough else "C03_quick.cfg"), ("C03Model.tla", "C03_sb.cfg"),
+              ("C03Model.tla", "C03_thorough.cfg" if thorough else "C03_quick.cfg"), ("C03Model.tla", "C03_sb.cfg"), ("C03Model.tla", "C03_links.cfg"),
               ("C04Model.tla", "C04_PXY.cfg"), ("C04Model.tla", "C04_PXYG.cfg"),
               ("C13Model.tla", "C13_r1.cfg" if thorough else "C13_r1q.cfg"), ("C13Model.tla", "C13_r2.cfg"),
               ("C10Model.tla", "C10_thorough.cfg" if thorough else "C10_quick.cfg")]
